@@ -285,6 +285,29 @@ fn closed_value_async_sender() {
   kani::cover!(true, "END");
 }
 
+/// C06 "dropping a pending future ... does not swallow a wakeup that another waiting task needs":
+/// two receive futures A (waker 0) and B (waker 1) are pending on an empty channel; one send wakes A; A is dropped
+/// before it is polled again.  The value is still buffered and B is still parked: B must be woken, and then gets it.
+fn cancel_forward() {
+  let (tx, rx) = bounded_async::<u8>(1);
+  let rx2 = rx.clone();
+  let mut fa = Box::pin(rx.recv());
+  let mut fb = Box::pin(rx2.recv());
+  assert!(poll_once(fa.as_mut(), 0).is_pending());
+  assert!(poll_once(fb.as_mut(), 1).is_pending());
+  assert!(tx.shared.k_nr() == 2);
+  let x: u8 = kani::any();
+  assert!(tx.try_send(x).is_ok());
+  assert!(wakes(0) == 1 && wakes(1) == 0);
+  drop(fa);
+  assert!(tx.shared.k_view().1 == 1, "the buffered value must survive the cancellation");
+  assert!(wakes(1) >= 1, "a cancelled receive future swallowed the wake-up the other pending receiver needs");
+  match poll_once(fb.as_mut(), 1) { Poll::Ready(Ok(v)) => assert!(v == x), _ => panic!("the remaining receiver did not get the value") }
+  drop(fb);
+  std::mem::forget(tx); std::mem::forget(rx); std::mem::forget(rx2);
+  kani::cover!(true, "END");
+}
+
 // @obligation id=c04.mpmc.gate.Sender props=C04,C01 kind=hist tier=quick bound="bounded(1), empty for sender gates and holding one item (any u8) for receiver gates and conversions, side counts raised to 2 so that nothing disconnects; closed Sender: try_send, send, try_send_batch, send_batch, try_send_batch_mut, send_batch_mut, second close, drop - one call each"
 #[kani::proof]
 #[kani::stub(std::thread::current::current, crate::verif_k_stubs::stub_thread_current)]
@@ -476,3 +499,15 @@ fn ob_c04_mpmc_closed_value_sender() { closed_value_sender(); }
 #[kani::stub(std::time::Instant::now, stub_instant_now)]
 #[kani::unwind(6)]
 fn ob_c04_mpmc_closed_value_async_sender() { closed_value_async_sender(); }
+
+// @obligation id=c06.mpmc.cancel_forward.recv props=C06 kind=hist tier=thorough bound="bounded_async(1), two pending RecvFutures, one try_send, the woken future dropped before re-poll"
+#[kani::proof]
+#[kani::stub(std::thread::current::current, crate::verif_k_stubs::stub_thread_current)]
+#[kani::stub(parking_lot::RawMutex::lock_slow, crate::verif_k_stubs::stub_lock_slow)]
+#[kani::stub(parking_lot::RawMutex::unlock_slow, crate::verif_k_stubs::stub_unlock_slow)]
+#[kani::stub(crate::sync::mutex::HybridMutex::lock_slow, crate::mpmc_v2::core::verif_k_mpmc_core::stub_hm_lock_slow)]
+#[kani::stub(std::thread::park, crate::verif_k_stubs::stub_park)]
+#[kani::stub(std::thread::park_timeout, crate::verif_k_stubs::stub_park_timeout)]
+#[kani::stub(std::time::Instant::now, stub_instant_now)]
+#[kani::unwind(6)]
+fn ob_c06_mpmc_cancel_forward_recv() { cancel_forward(); }
